@@ -21,7 +21,7 @@ DEFAULT_FAULTS = dict(
     pause=0.0, resume_early=0.0, cancel=0.0, bad_request=0.0, restart=0.0, dup=0.0, poll_skip=0.0,
     poll_twice=0.0, rerun=0.0, eval_fault=0.0, act_canceled=0.5, act_canceling=0.4, act_timeout=0.2, act_abandoned=0.1,
     slow_branch=0.3, suffix_requests=0.0, pending=0.0, mark_running=0.3, act_cancel_solo=0.0, early_pause=0.0,
-    early_cancel=0.0, cancel_while_pausing=0.0, cancel_at_retry=0.0, pause_at_retry=0.0, act_paused=0.0,
+    early_cancel=0.0, cancel_while_pausing=0.0, cancel_at_retry=0.0, pause_at_retry=0.0, act_paused=0.0, item_first_event=0.0,
 )
 
 
@@ -340,6 +340,8 @@ class Scheduler(object):
         opts = dict(profile.get("world") or {})
         if self.K.u("knob", "first_event") < 0.3:
             opts.setdefault("first_event", self.K.choice(["requested", "scheduled"], "knob", "fe"))
+            if (self.f.get("item_first_event") or 0) > 0 and self.K.u("knob", "item_first_event") < self.f["item_first_event"]:
+                opts.setdefault("item_first_event", True)
         if self.K.u("knob", "start_path") < 0.25:
             path = list(self.K.choice([["requested", "scheduled", "running"], ["requested", "running"], ["scheduled", "running"],
                                        ["delayed", "running"], ["requested", "delayed", "scheduled", "running"],
